@@ -141,9 +141,11 @@ fn maybe_forest(seed: u64, sc: &mut Scenario, params: &GenParams, one_in: usize,
         return;
     }
     let kmax = if tier == Tier::Quick { 90 } else { 220 };
-    let k = r.range(8, kmax);
+    let gadgets = r.chance(1, 2);
+    // gadget components are tiny, so gadget forests can be much wider (long series of conflicts in one solve)
+    let k = if gadgets { r.range(20, 3 * kmax) } else { r.range(8, kmax) };
     let sat_bias = r.chance(3, 4);
-    let (w, p) = crate::gen::gen_forest(&mut r, params, k, sat_bias);
+    let (w, p) = crate::gen::gen_forest(&mut r, params, k, sat_bias, gadgets);
     sc.world = w;
     sc.solves[0].problem = p;
     // the budgets scale with the size
@@ -305,6 +307,9 @@ impl Property for C02 {
                 *v.probes.entry("internal_state_checked").or_insert(0) += 1;
                 let n_learnt = d.clauses.iter().filter(|c| matches!(c.kind, resolvo::verif_hooks::DumpKind::Learnt(_))).count();
                 *v.probes.entry("learnt_clauses_certified").or_insert(0) += n_learnt as u64;
+                if n_learnt >= 64 {
+                    *v.probes.entry("solves_with_64_or_more_learnt_clauses").or_insert(0) += 1;
+                }
                 if let Some(e) = crate::internal::clause_truth(&sc.world, &p, d) {
                     v.evaluated = true;
                     v.violate("internal:clause-false", format!("solve #{i}: {e}"));
